@@ -292,7 +292,7 @@ func ruleCancelPump(c *Ctx, m *multiModel, rule string) {
 							c.Undecided(rule, key+":cancel-arm-edge", p.IPos(v), "cannot locate the branch taken for the cancel arm")
 							continue
 						}
-						closes := eng.ReachableInstrs(edgePoint(e), func(ins ssa.Instruction) bool {
+						isConnClose := func(ins ssa.Instruction) bool {
 							call, ok := ins.(*ssa.Call)
 							if !ok || eng.MethodName(&call.Call) != "Close" {
 								return false
@@ -310,8 +310,48 @@ func ruleCancelPump(c *Ctx, m *multiModel, rule string) {
 								}
 								return false
 							})
-						}, func(ins ssa.Instruction) bool { _, isSel := ins.(*ssa.Select); return isSel })
-						c.CheckAt(rule, key+":cancel-arm-closes-pending-conn", v, len(closes) > 0, "on the cancel arm the accepted connection that can no longer be delivered is not closed")
+						}
+						// every way out of the cancel arm on which the accept had succeeded passes the Close of that connection
+						var acs []ssa.CallInstruction
+						for _, a := range acceptCalls {
+							acs = append(acs, a)
+						}
+						_, fail := p.SuccessEdges(pump, acs, 1)
+						leak := ""
+						seenB := map[*ssa.BasicBlock]bool{}
+						var walkB func(b *ssa.BasicBlock, from int)
+						walkB = func(b *ssa.BasicBlock, from int) {
+							if from == 0 {
+								if seenB[b] {
+									return
+								}
+								seenB[b] = true
+							}
+							for i := from; i < len(b.Instrs); i++ {
+								ins := b.Instrs[i]
+								if isConnClose(ins) {
+									return
+								}
+								if _, isSel := ins.(*ssa.Select); isSel && ins != ssa.Instruction(v) {
+									return
+								}
+								if _, isRet := ins.(*ssa.Return); isRet && leak == "" {
+									leak = p.IPos(ins)
+								}
+							}
+							for _, sb := range b.Succs {
+								if fail[eng.Edge{From: b, To: sb}] {
+									continue
+								}
+								if sb == v.Block() {
+									leak = "back to the accept loop at " + blockPos(p, sb)
+									continue
+								}
+								walkB(sb, 0)
+							}
+						}
+						walkB(e.To, 0)
+						c.CheckAt(rule, key+":cancel-arm-closes-pending-conn", v, leak == "", "on the cancel arm an accepted connection that can no longer be delivered is left open (a path on which the accept succeeded leaves without closing it: "+leak+")")
 					}
 					// PROMPTREPLY: on every non-cancel receive arm, no blocking socket call before the reply is sent
 					for k, st := range v.States {
@@ -480,4 +520,48 @@ func ruleClosedGuard(c *Ctx, m *multiModel) {
 		}
 	}
 	c.Floor("CLOSEDGUARD", "blocking selects on the shared channel in methods of "+H, nSel, 1)
+	// HANDLECLOSE: whenever Close does anything (changes the handle's state, runs the release callback) it also closes the
+	// close channel: otherwise goroutines parked in the handle's select keep taking deliveries after the handle was released.
+	closeQ := closeOfField(p, H, closeField)
+	nEff := 0
+	for _, cf := range closers {
+		var closeIns []ssa.Instruction
+		for _, b := range cf.Blocks {
+			for _, ins := range b.Instrs {
+				if closeQ(ins) {
+					closeIns = append(closeIns, ins)
+				}
+			}
+		}
+		for _, b := range cf.Blocks {
+			for _, ins := range b.Instrs {
+				eff := ""
+				if st, ok := ins.(*ssa.Store); ok {
+					if t, fl, _, ok := eng.FieldOf(st.Addr); ok && t == H {
+						eff = "store to " + fl
+					}
+				}
+				if call, ok := ins.(ssa.CallInstruction); ok && !call.Common().IsInvoke() && call.Common().StaticCallee() == nil {
+					if p.AnyFrom(call.Common().Value, eng.Plain, func(x ssa.Value) bool { t, _, _, ok := eng.FieldLoad(x); return ok && t == H }) {
+						eff = "release callback"
+					}
+				}
+				if eff == "" {
+					continue
+				}
+				nEff++
+				ok := false
+				for _, ci := range closeIns {
+					if eng.Dominates(ci, ins) {
+						ok = true
+					}
+				}
+				if !ok {
+					ok, _ = eng.MustPass(eng.After(ins), closeQ)
+				}
+				c.CheckAt("HANDLECLOSE", short(cf)+":"+eff+":closes-the-close-channel", ins, ok, "a path through Close releases the handle ("+eff+") without closing its close channel: goroutines blocked in the handle are not woken and keep competing for connections/datagrams of the shared socket after the release")
+			}
+		}
+	}
+	c.Floor("HANDLECLOSE", "state changes in Close of "+H, nEff, 1)
 }
